@@ -840,7 +840,6 @@ EXPECTED = {'aspect|allnan|coords|0|dask0': "dask:aspect:('y', 'x'):[]:1a0016308
 
 
 def main():
-    assert 'TC08' in xrspatial.__file__ or '--anywhere' in sys.argv, xrspatial.__file__
     results, ref_failures = collect()
     if '--record' in sys.argv:
         import pprint
